@@ -69,6 +69,11 @@ def run_scene(case, frame):
     return mgr, out
 
 
+def _canon_angles(err):
+    """an error of exactly +-pi (opposite headings) is the same physical difference with either sign; rounding picks one: report +pi"""
+    return tuple(abs(v) if abs(abs(v) - math.pi) < 1e-9 else v for v in err)
+
+
 def pair_key(x):
     return (x.estimated_object.uuid, x.ground_truth_object.uuid if x.ground_truth_object is not None else None)
 
@@ -83,7 +88,7 @@ def frame_fp(r, gt_frame, frame):
     for x in r.object_results:
         k = pair_key(x)
         d = {"center": x.center_distance.value, "plane": x.plane_distance.value, "iou2d": x.iou_2d.value, "iou3d": x.iou_3d.value,
-             "aph_w": TPMetricsAph().get_value(x), "heading_error": x.heading_error if x.ground_truth_object is not None else None}
+             "aph_w": TPMetricsAph().get_value(x), "heading_error": _canon_angles(x.heading_error) if x.ground_truth_object is not None else None}
         pairs[str(k)] = d
     ego_rel = {}
     for x in r.object_results:
